@@ -129,6 +129,8 @@ type Cluster struct {
 	stallNext    map[protocol.ApiKey]bool
 	stalledConn  int
 	stallCond    *sync.Cond
+	// RawAuthMutate, when set, may replace a raw (handshake v0) SASL answer: a 4-byte length and the token.
+	RawAuthMutate func(round int, frame []byte) []byte
 	// Mutate, when set, may replace a complete response frame just before it is written (msg is the decoded
 	// form when the broker encoded it with the protocol package, nil for raw frames). Called with the lock held.
 	Mutate func(e *Entry, frame []byte, msg protocol.Message) []byte
